@@ -45,9 +45,13 @@ def _k1():
     cfg = cellcfg.k1()
     cfg['monitors'] = []
     cfg['allow_nocycle'] = False
+    # two instances of one shape class with incomparable, unsatisfiable
+    # demands (the feasibility tracker's shortcut is keyed by shape class)
+    cfg['templates']['wa'] = {'prio': 50, 'demand': [12, 1, 1], 'aff': 'w'}
+    cfg['templates']['wb'] = {'prio': 50, 'demand': [1, 12, 1], 'aff': 'w'}
     cfg['events'] = cellcfg.ev(
         ('add', 'sm'), ('add', 'sk'), ('add', 'ks'), ('add', 'hi'),
-        ('add', 'lo'),
+        ('add', 'lo'), ('add', 'wa'), ('add', 'wb'),
         ('rm', 0), ('rm', 1), ('prio', 0, 100),
         ('down', 's0'), ('up', 's0'), ('down', 's1'), ('up', 's1'),
         ('frz', 's2', -1), ('up', 's2'),
@@ -64,6 +68,7 @@ def _k1():
         {'demand': [6, 2, 2], 'aff': 'b', 'rank': 100, 'lease': DAY},
         {'demand': [8, 8, 8], 'aff': 'e', 'rank': 150, 'prio': 1},
         {'demand': [1, 1, 1], 'aff': 'x', 'rank': 100, 'lease': 30 * DAY},
+        {'demand': [2, 2, 2], 'aff': 'w', 'rank': 150},
     ]
     return cfg
 
